@@ -353,3 +353,53 @@ _base_scn_sp = scenarios
 
 def scenarios():
     return _base_scn_sp() + [signature_parse_kind()]
+
+
+def from_blob(kind):
+    """Armorable.from_blob: text is turned into octets one character per octet (Latin-1), octets are copied; the object's parse() gets that
+    buffer; the result is (object, what parse returned) when parse returns something (keys: the other keys of the blob), else the object"""
+    label = 'C10/Armorable.from_blob[%s]' % kind
+    ARM = 'pgpy.types.Armorable'
+    MSG = 'pgpy.pgp.PGPMessage'
+
+    def gen(repo):
+        r = scn.Run(repo, ARM, 'from_blob', label)
+        ex, st = r.ex, r.st
+        B = E.BYTES
+        BLOB = z3.Const('BLOB', B)
+        k = z3.Int('k!octet')
+        st.pc.append(z3.ForAll([k], z3.Implies(z3.And(k >= 0, k < z3.Length(BLOB)), z3.And(BLOB[k] >= 0, BLOB[k] < 256))))
+        obj = E.VObj(MSG, 'obj')
+        r.hook(MSG, '__call__', lambda ex, st, c, a: [(st, obj)])
+        others = z3.Bool('parse_returns_something')
+        PO = E.VDict([(E.VStr(s='other'), E.VObj('pgpy.pgp.PGPKey', 'otherkey'))])
+
+        def parse(ex, st, o, a):
+            st.ghost['parsed'] = (o, a[0], ex.seq(a[0], st) if isinstance(a[0], (E.VBuf, E.VBytes)) else None)
+            s2 = st.clone()
+            st.pc.append(others)
+            s2.pc.append(z3.Not(others))
+            return [(st, PO), (s2, E.VNone())]
+        r.hook(MSG, 'parse', scn.method_hook(parse))
+        arg = {'str': E.VStr(z=BLOB, cp=True), 'bytes': E.VBytes(BLOB), 'bytearray': ex.new_buf(st, BLOB)}[kind]
+        for pi, (s, v) in enumerate(r.call(E.VClass(MSG), [arg])):
+            if isinstance(v, E.Raise):
+                r.oblige(s, 'safety(%s)/p%d' % (v.exc.split(':')[0], pi), z3.BoolVal(False), v.where)
+                continue
+            p = s.ghost.get('parsed')
+            ok = p is not None and p[0] is obj and isinstance(p[1], E.VBuf) and p[2] is not None and p[1] is not arg
+            r.oblige(s, 'parse-gets-a-fresh-buffer-with-the-octets(text:one-character-per-octet)/p%d' % pi, z3.And(z3.BoolVal(ok), p[2] == BLOB if ok else z3.BoolVal(False)))
+            if isinstance(v, E.VTuple):
+                r.oblige(s, 'a-pair(object,what-parse-returned)-only-when-parse-returned-something/p%d' % pi,
+                         z3.And(others, z3.BoolVal(len(v.items) == 2 and v.items[0] is obj and v.items[1] is PO)))
+            else:
+                r.oblige(s, 'the-object-itself-when-parse-returned-nothing/p%d' % pi, z3.And(z3.Not(others), z3.BoolVal(v is obj)))
+        return r.result()
+    return Scenario(label, ARM + '.from_blob', gen, props=('C10', 'C14', 'C20'))
+
+
+_base_scn_fb = scenarios
+
+
+def scenarios():
+    return _base_scn_fb() + [from_blob(k) for k in ('str', 'bytes', 'bytearray')]
